@@ -50,6 +50,38 @@ func vBytes(v string) []byte {
 
 func vHasPrefix(k, p string) bool { return len(k) >= len(p) && k[:len(p)] == p }
 
+// etcd's per-key bookkeeping: Version counts the modifications since the key was (re-)created
+// (1 for a fresh key, so a delete followed by a re-creation starts again at 1), CreateRevision
+// is the revision of that creation.
+var (
+	vStoreVer    = map[string]int64{}
+	vStoreCreate = map[string]int64{}
+)
+
+func vPut(k, v string) {
+	vRevision++
+	if _, ok := vStoreKV[k]; !ok {
+		vStoreVer[k], vStoreCreate[k] = 0, vRevision
+	}
+	vStoreKV[k] = v
+	vStoreRev[k] = vRevision
+	vStoreVer[k]++
+}
+
+func vDel(k string) {
+	if _, ok := vStoreKV[k]; ok {
+		vRevision++
+	}
+	delete(vStoreKV, k)
+	delete(vStoreRev, k)
+	delete(vStoreVer, k)
+	delete(vStoreCreate, k)
+}
+
+func vKV(k, v string) *mvccpb.KeyValue {
+	return &mvccpb.KeyValue{Key: []byte(k), Value: vBytes(v), ModRevision: vStoreRev[k], Version: vStoreVer[k], CreateRevision: vStoreCreate[k]}
+}
+
 func vGetRawPrefix(c *cluster, prefix string) (map[string]*mvccpb.KeyValue, error) {
 	if vPullFails {
 		return nil, errors.New("etcd server unavailable")
@@ -57,7 +89,7 @@ func vGetRawPrefix(c *cluster, prefix string) (map[string]*mvccpb.KeyValue, erro
 	out := map[string]*mvccpb.KeyValue{}
 	for k, v := range vStoreKV {
 		if vHasPrefix(k, prefix) {
-			out[k] = &mvccpb.KeyValue{Key: []byte(k), Value: vBytes(v), ModRevision: vStoreRev[k]}
+			out[k] = vKV(k, v)
 		}
 	}
 	return out, nil
@@ -68,7 +100,7 @@ func vGetRaw(c *cluster, key string) (*mvccpb.KeyValue, error) {
 		return nil, errors.New("etcd server unavailable")
 	}
 	if v, ok := vStoreKV[key]; ok {
-		return &mvccpb.KeyValue{Key: []byte(key), Value: vBytes(v), ModRevision: vStoreRev[key]}, nil
+		return vKV(key, v), nil
 	}
 	return nil, nil
 }
@@ -103,13 +135,12 @@ func verifC19_SyncPrefix() {
 	keys := []string{"/p/a", "/p/b", "/q/x"}
 	vals := []string{"v1", "v2"}
 	vStoreKV, vStoreRev, vRevision = map[string]string{}, map[string]int64{}, 1
+	vStoreVer, vStoreCreate = map[string]int64{}, map[string]int64{}
 	// the store starts empty, with one key or with two keys under the prefix
 	if n := verifChoose("initialKeysUnderThePrefix", 3); n >= 1 {
-		vStoreKV["/p/a"] = "v1"
-		vStoreRev["/p/a"] = 1
+		vPut("/p/a", "v1")
 		if n == 2 {
-			vStoreKV["/p/b"] = "v2"
-			vStoreRev["/p/b"] = 1
+			vPut("/p/b", "v2")
 		}
 	}
 	vWatchCh = make(chan clientv3.WatchResponse, 8)
@@ -133,14 +164,12 @@ func verifC19_SyncPrefix() {
 			if len(history[nh-1]) >= 2 {
 				verifCover("several-keys-vanish-at-once")
 			}
-			delete(vStoreKV, "/p/a")
-			delete(vStoreKV, "/p/b")
+			vDel("/p/a")
+			vDel("/p/b")
 		} else if verifBool("write.isDelete") {
-			delete(vStoreKV, k)
+			vDel(k)
 		} else {
-			vStoreKV[k] = vals[verifChoose("write.value", 2)]
-			vRevision++
-			vStoreRev[k] = vRevision
+			vPut(k, vals[verifChoose("write.value", 2)])
 		}
 		history[nh] = vSnapshot(prefix)
 		nh++
@@ -228,6 +257,7 @@ func verifC19_SyncKey() {
 	keys := []string{"/k", "/k2", "/x"}
 	vals := []string{"v1", ""} // the empty string is a value like any other (absent is "<absent>")
 	vStoreKV, vStoreRev, vRevision = map[string]string{}, map[string]int64{}, 1
+	vStoreVer, vStoreCreate = map[string]int64{}, map[string]int64{}
 	vWatchCh = make(chan clientv3.WatchResponse, 8)
 	vTickCh = make(chan time.Time, 8)
 	vPullFails, vWatchCount = false, 0
@@ -248,14 +278,12 @@ func verifC19_SyncKey() {
 		before, had := vStoreKV[key]
 		var ev *clientv3.Event
 		if verifBool("write.isDelete") {
-			delete(vStoreKV, k)
+			vDel(k)
 			ev = &clientv3.Event{Type: mvccpb.DELETE, Kv: &mvccpb.KeyValue{Key: []byte(k)}}
 		} else {
 			v := vals[verifChoose("write.value", 2)]
-			vStoreKV[k] = v
-			vRevision++
-			vStoreRev[k] = vRevision
-			ev = &clientv3.Event{Type: mvccpb.PUT, Kv: &mvccpb.KeyValue{Key: []byte(k), Value: vBytes(v), ModRevision: vRevision}}
+			vPut(k, v)
+			ev = &clientv3.Event{Type: mvccpb.PUT, Kv: vKV(k, v)}
 		}
 		after, has := vStoreKV[key]
 		if had != has || before != after {
@@ -340,6 +368,7 @@ func verifC19_SyncKey() {
 func verifC19_SlowConsumer() {
 	const prefix = "/p/"
 	vStoreKV, vStoreRev, vRevision = map[string]string{}, map[string]int64{}, 1
+	vStoreVer, vStoreCreate = map[string]int64{}, map[string]int64{}
 	vWatchCh = make(chan clientv3.WatchResponse, 32)
 	vTickCh = make(chan time.Time, 8)
 	vPullFails, vWatchCount = false, 0
@@ -359,9 +388,7 @@ func verifC19_SlowConsumer() {
 			}
 		}
 		final = vals[i%3]
-		vStoreKV["/p/a"] = final
-		vRevision++
-		vStoreRev["/p/a"] = vRevision
+		vPut("/p/a", final)
 		vWatchCh <- clientv3.WatchResponse{} // every write is announced
 		verifQuiesce()                        // and the syncer gets time to pull (or blocks on the full channel)
 	}
